@@ -1,8 +1,9 @@
 /-
 C18 — GF(2) linear algebra and sign-pattern recovery are exact.
-Property theorems about `Model/GF2.lean` (helper lemmas are in `Lemmas/GF2.lean`).
+Property theorems about `Model/GF2.lean` (helper lemmas are in `Lemmas/GF2*.lean`).
 -/
-import SageoptModel.Lemmas.GF2
+import SageoptModel.Lemmas.GF2Sign
+set_option linter.unusedVariables false
 
 namespace Sageopt.Props.C18
 open Sageopt.GF2
@@ -16,5 +17,131 @@ theorem rref_forward_row_equiv (n : Nat) (A : Mat) (x : Row) :
 
 example : (rref 3 [[true,true,false],[true,false,true],[false,true,true]] true).1
     = [[true,true,false],[false,true,true],[false,false,false]] := by decide
+
+/-- T1: both modes of mod2rref return a row-equivalent matrix (same solution set) -/
+theorem rref_row_equiv (n : Nat) (A : Mat) (f : Bool) (x : Row) (hA : WF n A) :
+    Sol (rref n A f).1 x ↔ Sol A x :=
+  rref_sol n A f x hA
+
+/-- T2: pivot columns are strictly increasing and in range -/
+theorem rref_pivots_sorted (n : Nat) (A : Mat) (f : Bool) :
+    ((rref n A f).2).Pairwise (· < ·) ∧ ∀ c ∈ (rref n A f).2, c < n := by
+  rw [rref_snd]
+  obtain ⟨h1, h2⟩ := fwd_pivots n 0 A
+  exact ⟨h1, fun c hc => by have := h2 c hc; omega⟩
+
+/-- T3: echelon structure.  Row i (i < number of pivots) has its leading 1 in pivot column p[i];
+    rows past the rank are zero; in the reduced form pivot columns are unit columns. -/
+theorem rref_echelon (n : Nat) (A : Mat) (f : Bool) (hA : WF n A) :
+    let R := (rref n A f).1
+    let p := (rref n A f).2
+    R.length = A.length ∧ WF n R ∧ p.length ≤ R.length ∧
+    (∀ i, i < p.length → entry (R.getD i []) (p.getD i 0) = true ∧
+        ∀ j, j < p.getD i 0 → entry (R.getD i []) j = false) ∧
+    (∀ i, p.length ≤ i → i < R.length → ∀ j, entry (R.getD i []) j = false) ∧
+    (f = false → ∀ i i', i < p.length → i' < R.length → i' ≠ i →
+        entry (R.getD i' []) (p.getD i 0) = false) := by
+  intro R p
+  obtain ⟨h1, h2, h3⟩ := fwd_full n A hA
+  cases f with
+  | true =>
+    have hR : R = (fwd n 0 A [] []).1 := by simp [R, rref_true]
+    have hp : p = (fwd n 0 A [] []).2 := by simp [p, rref_true]
+    rw [hR, hp]
+    exact ⟨h3, h2, h1.len, h1.lead, fun i hi _ => h1.zero i hi, by simp⟩
+  | false =>
+    have hi := rref_false_inv n A hA
+    have hr := rref_false_rref n A hA
+    exact ⟨hi.len.trans h3, hi.wf, hi.ech.len, hi.ech.lead, fun i hi' _ => hi.ech.zero i hi',
+      fun _ i i' h _ hne => hr.unit i i' h hne⟩
+
+example : WF 3 [[true,true,false],[true,false,true],[false,true,true]] := by decide
+example : rref 3 [[true,true,false],[true,false,true],[false,true,true]] false
+    = ([[true,false,true],[false,true,true],[false,false,false]], [0, 1]) := by decide
+
+/-- T4: a returned vector solves the system -/
+theorem linsolve_sound (n : Nat) (A : Mat) (b x : Row) (hA : WF n A) (hb : b.length = A.length) :
+    linsolve n A b = some x → x.length = n ∧ Solves A b x :=
+  linsolve_sound' n A b x hA
+
+/-- T5: `None` is returned only when no solution exists -/
+theorem linsolve_complete (n : Nat) (A : Mat) (b : Row) (hA : WF n A) (hb : b.length = A.length) :
+    linsolve n A b = none → ∀ x : Row, ¬ Solves A b x :=
+  linsolve_complete' n A b hA
+
+example : linsolve 3 [[true,true,false],[true,false,true],[false,true,true]] [true,false,true]
+    = some [false,true,false] := by decide
+example : Solves [[true,true,false],[true,false,true],[false,true,true]] [true,false,true]
+    [false,true,false] := by decide
+example : linsolve 3 [[true,true,false],[true,false,true],[false,true,true]] [true,false,false]
+    = none := by decide
+
+/-- T6: the enumerated null space is exactly the solution set of A x = 0 -/
+theorem nullspace_sound (n : Nat) (A : Mat) (hA : WF n A) (v : Row) :
+    v ∈ nullspace n (rref n A false).1 (rref n A false).2 → v.length = n ∧ Sol A v := by
+  intro hv
+  obtain ⟨h1, h2⟩ := nullspace_sol (rref_false_rref n A hA) v hv
+  exact ⟨h1, (rref_sol n A false v hA).mp h2⟩
+
+theorem nullspace_complete (n : Nat) (A : Mat) (hA : WF n A) (x : Row) (hx : x.length = n) :
+    Sol A x → x ∈ nullspace n (rref n A false).1 (rref n A false).2 := by
+  intro hs
+  exact nullspace_complete_rref (rref_false_rref n A hA) x hx ((rref_sol n A false x hA).mpr hs)
+
+/-- number of enumerated vectors = 2^(n - rank) (no duplicates as a list) -/
+theorem nullspace_card (n : Nat) (A : Mat) (hA : WF n A) :
+    (nullspace n (rref n A false).1 (rref n A false).2).length = 2 ^ (n - (rref n A false).2.length)
+    ∧ (nullspace n (rref n A false).1 (rref n A false).2).Nodup := by
+  obtain ⟨h1, h2⟩ := rref_pivots_sorted n A false
+  exact nullspace_card_rref h1 h2
+
+example : nullspace 3 (rref 3 [[true,true,false],[true,false,true],[false,true,true]] false).1
+    (rref 3 [[true,true,false],[true,false,true],[false,true,true]] false).2
+    = [[false,false,false],[true,true,true]] := by decide
+
+/-! sign patterns.  `alphaOdd[i][j]` = (alpha[i,j] is odd); `nz[i]` = (moments[i] ≠ 0);
+    `neg[i]` = (moments[i] < 0); a sign vector is its negativity indicator.
+    (`Consistent`, `EvenNonneg`, `signProd` are defined in `Lemmas/GF2Sign.lean`.) -/
+
+theorem sign_patterns_sound (n : Nat) (α : Mat) (nz neg : Row) (all : Bool) (hα : WF n α)
+    (hpos : EvenNonneg α nz neg) (y : Row) :
+    y ∈ variableSignPatterns n α nz neg all → y.length = n ∧ Consistent α nz neg y :=
+  vsp_sound all hα hpos y
+
+theorem sign_patterns_none_iff (n : Nat) (α : Mat) (nz neg : Row) (all : Bool) (hα : WF n α)
+    (hpos : EvenNonneg α nz neg) :
+    variableSignPatterns n α nz neg all = [] ↔ ¬ ∃ y : Row, Consistent α nz neg y :=
+  vsp_nil_iff all hα hpos
+
+/-- with all_signs, every consistent pattern is returned up to the coordinates that are irrelevant to
+    signs (coordinates that are odd in no row with a nonzero moment) -/
+theorem sign_patterns_complete (n : Nat) (α : Mat) (nz neg : Row) (hα : WF n α)
+    (hpos : EvenNonneg α nz neg) (y : Row) (hy : y.length = n) (hc : Consistent α nz neg y) :
+    ∃ y' ∈ variableSignPatterns n α nz neg true,
+      ∀ j, j < n → (∃ i, i < α.length ∧ entry nz i = true ∧ entry (α.getD i []) j = true) →
+        entry y' j = entry y j :=
+  vsp_complete hα hpos y hy hc
+
+/-- the reduction of sign consistency to GF(2): for y ∈ {-1,+1}^n (as negativity indicator `ng`)
+    the sign of prod_j y_j^(alpha_j) is -1 iff an odd number of odd exponents sit at negative
+    coordinates -/
+theorem sign_reduction (ng : List Bool) (a : List Nat) :
+    signProd ng a = if dotB (a.map (· % 2 = 1)) ng then -1 else 1 :=
+  signProd_eq ng a
+
+-- non-vacuity: alpha = [[1,1,0],[0,1,1],[2,0,2]] (odd pattern below), moments (-, +, +)
+example : WF 3 [[true,true,false],[false,true,true],[false,false,false]] := by decide
+example : EvenNonneg [[true,true,false],[false,true,true],[false,false,false]]
+    [true,true,true] [true,false,false] := by decide
+example : variableSignPatterns 3 [[true,true,false],[false,true,true],[false,false,false]]
+    [true,true,true] [true,false,false] true
+    = [[true,false,false],[false,true,true]] := by decide
+example : Consistent [[true,true,false],[false,true,true],[false,false,false]]
+    [true,true,true] [true,false,false] [false,true,true] := by decide
+-- an infeasible instance: rows (1,1) with moments of opposite sign
+example : EvenNonneg [[true,true],[true,true]] [true,true] [true,false] := by decide
+example : variableSignPatterns 2 [[true,true],[true,true]] [true,true] [true,false] true = [] := by
+  decide
+example : signProd [true,false,true] [3,1,2] = -1 := by decide
 
 end Sageopt.Props.C18
